@@ -144,6 +144,20 @@ inductive Outcome where
   | err (e : AuErr)
   | panic (p : Panic)
 
+/-- outcome without the tree (decidable equality) -/
+inductive Tag where
+  | ok | err (e : AuErr) | panic (p : Panic)
+  deriving DecidableEq, Repr
+
+def Outcome.tag : Outcome → Tag
+  | .ok _ => .ok
+  | .err e => .err e
+  | .panic p => .panic p
+
+def UV.uploadId? : UV → Option Nat
+  | .upload i => some i
+  | _ => none
+
 def Outcome.isPanic : Outcome → Bool
   | .panic _ => true
   | _ => false
@@ -310,6 +324,10 @@ def applyDefer (st : St) : Defer → St
   | .remove f => { st with live := st.live.filter (· ≠ f) }
   | .close h => { st with openH := st.openH.filter (· ≠ h) }
 
+def Exit.isPanic : Exit → Bool
+  | .panicked _ => true
+  | _ => false
+
 /-- deferred calls run last-in first-out when `Do` returns -/
 def runDefers (st : St) : St :=
   { st.defers.foldl applyDefer st with defers := [] }
@@ -461,6 +479,8 @@ inductive BodyClass where
   | err     -- anything the decoder rejects
   | plain   -- not decoded as a JSON envelope by this transport
   deriving DecidableEq, Repr
+
+def BodyClass.all : List BodyClass := [.null, .ok, .err, .plain]
 
 inductive Target where
   | pointer (nilChecked : Bool)   -- `&params` with `params *RawParams`: null leaves it nil
